@@ -63,6 +63,11 @@ def build_ioapi(IO, ctx, T, L, R, C, tkey, symbolic=True, vals=None,
     f.STIME = p['stime']
     f.TSTEP = tstep
     f.XORIG, f.YORIG = p['xorig'], p['yorig']
+    if p.get('attr') == 'array':
+        # attribute values held as one-element arrays
+        dt = object if symbolic else 'd'
+        f.XORIG = np.array([p['xorig']], dtype=dt)
+        f.YORIG = np.array([p['yorig']], dtype=dt)
     f.XCELL, f.YCELL = p['xcell'], p['ycell']
     f.VGLVLS = np.array(p['vglvls'], dtype=object if symbolic else 'f')
     f.VGTOP = 5000.
@@ -87,13 +92,16 @@ class Subset(Obligation):
     _space = None
 
     def __init__(self, dim, kind, T=2, L=2, R=2, C=2, tkey='1h', year=2000,
-                 tflag=True):
+                 tflag=True, attr='scalar'):
         self.year = year
         self.tflag = tflag
+        self.attr = attr
         self.dim, self.kind = dim, kind
         self.T, self.L, self.R, self.C, self.tkey = T, L, R, C, tkey
         self.name = 'subset[%s=%s|T%dL%dR%dC%d,%s,%d%s]' % (
             dim, kind, T, L, R, C, tkey, year, '' if tflag else ',noTFLAG')
+        if attr != 'scalar':
+            self.name = self.name[:-1] + ',origin-as-array]'
         self.bounds = {'dims': (T, L, R, C), 'window': '%s=%s' % (dim, kind)}
 
     def space(self):
@@ -140,7 +148,8 @@ class Subset(Obligation):
         M = ctx.int('t_M', 0, 59)
         vals = {'sdate': y * 1000 + j, 'stime': H * 10000 + M * 100,
                 'xorig': ctx.real('xorig'), 'yorig': ctx.real('yorig'),
-                'xcell': ctx.real('xcell', 1), 'ycell': ctx.real('ycell', 1)}
+                'xcell': ctx.real('xcell', 1), 'ycell': ctx.real('ycell', 1),
+                'attr': self.attr}
         vg = [ctx.real('vg%d' % i) for i in range(self.L + 1)]
         for p, q in zip(vg[:-1], vg[1:]):
             ctx.assume(p.e > q.e, check=False)
@@ -183,15 +192,26 @@ class Subset(Obligation):
                 return
         finally:
             sys.setprofile(None)
-        self._claims(h.claim, out, vals, first, cnt, y, j, H, M, True, h)
+        self._claims(h.claim, out, vals, first, cnt, y, j, H, M, True, h,
+                     src=f)
 
     def _claims(self, claim, out, vals, first, cnt, y, j, H, M, symbolic,
-                h=None):
+                h=None, src=None):
         tstep, tsec = TSTEPS[self.tkey]
 
+        def one(x):
+            return np.asarray(x, dtype=object).reshape(-1)[0] \
+                if isinstance(x, np.ndarray) else x
+
         def eq(a_, b_):
+            a_, b_ = one(a_), one(b_)
             return common.eq_expr(a_, b_) if symbolic else \
                 common.close_expr(a_, b_, 1e-6)
+        if src is not None and getattr(self, 'check_source', False):
+            # the source file keeps its own referencing (a clause of C05;
+            # these obligations are listed by checks/c05.py)
+            claim('source-XORIG-unchanged', eq(src.XORIG, vals['xorig']))
+            claim('source-YORIG-unchanged', eq(src.YORIG, vals['yorig']))
         xo = vals['xorig'] + (first * vals['xcell'] if self.dim == 'COL'
                               else 0)
         yo = vals['yorig'] + (first * vals['ycell'] if self.dim == 'ROW'
@@ -260,7 +280,8 @@ class Subset(Obligation):
                 'xorig': fl('xorig'), 'yorig': fl('yorig'),
                 'xcell': fl('xcell', 1.0), 'ycell': fl('ycell', 1.0),
                 'vglvls': [fl('vg%d' % i, 1.0 - i / 10.)
-                           for i in range(self.L + 1)]}
+                           for i in range(self.L + 1)],
+                'attr': self.attr}
         viol = {}
 
         def claim(label, e):
@@ -281,7 +302,8 @@ class Subset(Obligation):
                 # float32 storage of VGLVLS: compare against float32 inputs
                 vals['vglvls'] = [float(np.float32(v))
                                   for v in vals['vglvls']]
-                self._claims(claim, out, vals, first, cnt, y, j, H, M, False)
+                self._claims(claim, out, vals, first, cnt, y, j, H, M, False,
+                             src=f)
         except Exception as ex:
             viol['raised:' + type(ex).__name__] = repr(ex)[:200]
         return {'obs': {}, 'violations': viol,
@@ -344,4 +366,9 @@ def obligations(tier):
                                   R=3 if dim == 'ROW' else 2,
                                   C=3 if dim == 'COL' else 2,
                                   year=years[-1]))
+                if dim in ('COL', 'ROW'):
+                    # grid origin held as a one-element array attribute
+                    obs.append(Subset(dim, kind, R=3 if dim == 'ROW' else 2,
+                                      C=3 if dim == 'COL' else 2,
+                                      year=years[-1], attr='array'))
     return obs
